@@ -64,6 +64,13 @@ def impl(case):
                 a = [get_pauli_string(x) for x in args]
                 if op == "find":
                     out.append(["ret", list(m.find(a[0]))])
+                elif op == "lit":
+                    out.append(["str", str(m.lit(a[0], a[1]))])
+                elif op == "get_lits":
+                    out.append(["strs", [str(x) for x in m.get_lits(a[0])]])
+                elif op == "get_pq":
+                    r = m.get_pq(a[0])
+                    out.append(["pq", None if r[0] is None else [str(r[0]), str(r[1])]])
                 else:
                     getattr(m, op)(*a)
                     out.append(["legs", [[str(x) for x in leg] for leg in m.legs]])
@@ -183,20 +190,34 @@ def validate_queue_translation(ck, base, count):
         legs = [[ck.rng.choice(pool)]] + [[ck.rng.choice(pool) for _ in range(ck.rng.choice([1, 1, 1, 2, 2, 3, 4]))] for _ in range(ck.rng.randint(0, 5))]
         legs[1:] = sorted(legs[1:], key=len) if ck.rng.random() < 0.8 else legs[1:]
         verts = [v for leg in legs for v in leg]
-        op = ck.rng.choice(["find", "append", "append", "remove", "remove", "replace"])
+        op = ck.rng.choice(["find", "append", "append", "remove", "remove", "replace", "lit", "get_lits", "get_pq", "get_pq"])
         tgt = ck.rng.choice([leg[-1] for leg in legs] + verts) if ck.rng.random() < 0.9 else G.uniform(ck.rng, n)
         args = [tgt] if op in ("find", "remove") else ([G.uniform(ck.rng, n), tgt] if op == "append" else [tgt, G.uniform(ck.rng, n)])
+        if op in ("get_lits", "get_pq"):
+            args = [G.uniform(ck.rng, n)]
+        if op == "lit":
+            args = [G.mul(ck.rng.choice(verts), tgt) if ck.rng.random() < 0.4 else G.uniform(ck.rng, n), tgt]
         litems.append([legs, op, args])
     lres = [r for rr in ck.impl("c03", [{"op": "legsop", "items": litems[i:i + 100]} for i in range(0, len(litems), 100)], per_case_s=120) for r in rr["res"]]
     lkinds = {}
     coq_legs = lambda L: "[" + ";".join("[" + ";".join(coq_pstr(x) for x in leg) + "]" for leg in L) + "]"
     for (legs, op, args), r in zip(litems, lres):
         lkinds[op + ":" + (r[1] if r[0] == "exc" else "ok")] = lkinds.get(op + ":" + (r[1] if r[0] == "exc" else "ok"), 0) + 1
-        call = {"find": "py_Q_find %s %s", "append": "py_Q_append %s false %s %s", "remove": "py_Q_remove %s %s", "replace": "py_Q_replace %s %s %s"}[op] % tuple([coq_legs(legs)] + [coq_pstr(a) for a in args])
+        call = {"find": "py_Q_find %s %s", "append": "py_Q_append %s false %s %s", "remove": "py_Q_remove %s %s", "replace": "py_Q_replace %s %s %s", "lit": "py_Q_lit %s %s %s",
+                "get_lits": "py_Q_get_lits %s %s None", "get_pq": "py_Q_get_pq %s %s"}[op] % tuple([coq_legs(legs)] + [coq_pstr(a) for a in args])
         if r[0] == "exc":
             lines.append('Definition c%d : bool := match %s with FRaised e_ => exn_eqb e_ (EUser "%s"%%string) | _ => false end.' % (len(kept), call, r[1]))
         elif op == "find":
             lines.append("Definition c%d : bool := match %s with FRet (a_, b_) => (a_ =? %d) && (b_ =? %d) | _ => false end." % (len(kept), call, r[1][0], r[1][1]))
+        elif op == "lit":
+            lines.append("Definition c%d : bool := match %s with FRet a_ => pstr_eqb a_ %s | _ => false end." % (len(kept), call, coq_pstr(r[1])))
+        elif op == "get_lits":
+            lines.append("Definition c%d : bool := match %s with FRet a_ => lps_eqb a_ [%s] | _ => false end." % (len(kept), call, ";".join(coq_pstr(x) for x in r[1])))
+        elif op == "get_pq":
+            if r[1] is None:
+                lines.append("Definition c%d : bool := match %s with FNone => true | _ => false end." % (len(kept), call))
+            else:
+                lines.append("Definition c%d : bool := match %s with FRet (a_, b_) => pstr_eqb a_ %s && pstr_eqb b_ %s | _ => false end." % (len(kept), call, coq_pstr(r[1][0]), coq_pstr(r[1][1])))
         else:
             lines.append("Definition c%d : bool := match %s with FRet l_ => legs_eqb l_ %s | _ => false end." % (len(kept), call, coq_legs(r[1])))
         kept.append((["check_dependency_one_leg", legs, [op] + args], r))
